@@ -239,6 +239,7 @@ class _Cell:
         with impl(f"construct {kind} cell"):
             self.conn = _mk_conn(case["conn"], dt, self.dmax, B, inplace)
             self.conn.updater = self.conn.defaultupdater()
+            self.updater_obj = self.conn.updater   # kept: the updater may be detached while frozen
             self.neuron = ExactNeuron(self.outs, dt, rest_v=-60.0, thresh_v=-45.0, batch_size=B)
             self.layer = Serial(self.conn, self.neuron)
             dtype = torch.get_default_dtype()
@@ -259,21 +260,25 @@ class _Cell:
         with impl(f"{self.kind}: layer step"):
             self.layer(pre_t, neuron_kwargs={"override": post_t})
 
-    def train(self, signal=None, scale: float = 1.0):
-        """One trainer call (serves every cell registered on the trainer)."""
+    def train(self, signal=None, scale: float = 1.0, only: list | None = None):
+        """One trainer call (serves every cell registered on the trainer); ``only`` = the ``cells``
+        argument of the three-factor trainers (names of the cells to update)."""
         with impl(f"{self.kind}: trainer()"):
             if self.kind in THREE:
                 sig = signal
                 if isinstance(signal, (list, tuple)):
                     sig = torch.tensor(signal, dtype=torch.get_default_dtype())
-                self.trainer(sig, scale=scale)
+                if only is not None:
+                    self.trainer(sig, scale=scale, cells=only)
+                else:
+                    self.trainer(sig, scale=scale)
             else:
                 self.trainer()
 
     def parts(self):
         """(pos, neg) of the accumulator of the trained parameter, flattened (P,), None -> zeros."""
         with impl(f"{self.kind}: read updater.{self.pname}"):
-            acc = getattr(self.conn.updater, self.pname)
+            acc = getattr(self.updater_obj, self.pname)
             pos, neg = acc.pos, acc.neg
         out = []
         for part in (pos, neg):
@@ -329,7 +334,7 @@ def _subcases(case) -> list[dict]:
     delays, weights, history and optionally the hyperparameters; B, dt and the trainer are shared)."""
     subs = [case]
     for extra in case.get("more", ()):
-        sub = {k: v for k, v in case.items() if k != "more"}
+        sub = {k: v for k, v in case.items() if k not in ("more", "freeze")}
         sub.update(extra)
         if "hp" in extra:
             sub.update(extra["hp"])
@@ -364,6 +369,76 @@ def _redelay(cell: _Cell, sub: dict, stp: dict, dms) -> bool:
     tmp = dict(sub, draws=stp["setd"], dmode=stp.get("setd_mode", "grid"))
     cell.set_delays(_delays(tmp, cell.P, dms, sub["dt"]))
     return True
+
+
+class _Freeze:
+    """A span of steps in which a registered cell is one the trainers document as skipped
+    ("skip if self or cell is not in training mode or has no updater"; three-factor rules: not
+    named in ``cells``).  kinds:
+      cell_eval   cell.eval() ... cell.train(): the layer stays in training mode, so the monitors
+                  (registered on the layer) keep recording and the comparison resumes afterwards
+      no_updater  del connection.updater ... connection.updater = <same updater>
+      cells_arg   three-factor rules only: the cell is left out of forward(..., cells=[...])
+      layer_eval  layer.eval() to the end of the history: the monitors stop recording
+                  (eval_update=False), so the comparison for this cell ends at the freeze
+    Oracle inside the span: the cell's accumulators do not change at all."""
+
+    def __init__(self, cell: _Cell, spec, T: int):
+        self.cell, self.kind = cell, None
+        self.start = self.stop = -1
+        if not spec or T < 2:
+            return
+        kind = spec["kind"]
+        if kind == "cells_arg" and cell.kind not in THREE:
+            kind = "cell_eval"
+        self.kind = kind
+        self.start = spec["start"] % T
+        self.stop = self.start + 1 + spec["len"] % (T - self.start)   # exclusive
+        if kind == "layer_eval":
+            self.stop = T
+        self.snap = None
+
+    def active(self, si: int) -> bool:
+        return self.kind is not None and self.start <= si < self.stop
+
+    def before_step(self, si: int):
+        c = self.cell
+        if self.kind is None:
+            return
+        if si == self.start:
+            self.snap = c.parts()
+            with impl(f"freeze cell '{c.name}' ({self.kind})"):
+                if self.kind == "cell_eval":
+                    c.layer.cell.eval()
+                elif self.kind == "layer_eval":
+                    c.layer.eval()
+                elif self.kind == "no_updater":
+                    del c.conn.updater
+        elif si == self.stop:
+            with impl(f"unfreeze cell '{c.name}' ({self.kind})"):
+                if self.kind == "cell_eval":
+                    c.layer.cell.train()
+                elif self.kind == "no_updater":
+                    c.conn.updater = c.updater_obj
+
+    def check(self, si: int, info: dict):
+        c = self.cell
+        pos, neg = c.parts()
+        for nm, now, was in (("pos", pos, self.snap[0]), ("neg", neg, self.snap[1])):
+            bad = ~((now == was) | (np.isnan(now) & np.isnan(was)))
+            if bad.any():
+                p = int(np.argmax(bad))
+                raise Violation(
+                    "freeze:changed",
+                    f"step {si}: cell '{c.name}' is frozen ({self.kind}, steps {self.start}..{self.stop - 1}) but "
+                    f"the {nm} part of updater.{c.pname}[{p}] went from {was[p]!r} to {now[p]!r}", info)
+
+
+def _only_arg(cells, freezes, si):
+    """``cells=`` argument for a three-factor call: None unless a cell is frozen that way."""
+    if not any(f.active(si) and f.kind == "cells_arg" for f in freezes):
+        return None
+    return [c.name for c, f in zip(cells, freezes) if not (f.active(si) and f.kind == "cells_arg")]
 
 
 # ------------------------------------------------------------------------------ leg: formula
@@ -432,11 +507,15 @@ class _FormulaCell:
         self.n_c = self.n_a = self.n_z = self.n_amb = self.n_silent = self.n_nz = self.n_upd = 0
         self.n_setd = self.n_dchg = 0
         self.n_intol_neg = self.n_intol_pos = self.n_old = self.n_old_live = 0
+        self.freeze = _Freeze(self.cell, sub.get("freeze"), len(sub["steps"]))
+        self.n_frozen = 0
+        self.ended = False   # comparison ended (monitors stopped recording: layer_eval)
 
     def drive(self, si):
         """Everything up to (excluding) the trainer call of step ``si``."""
         stp = self.sub["steps"][si]
         cell = self.cell
+        self.freeze.before_step(si)
         if self.kind != "KSTDP" and _redelay(cell, self.sub, stp, self.dms):
             self.n_setd += 1
             if cell.pname == "delay":
@@ -454,6 +533,15 @@ class _FormulaCell:
         d_impl, dt = self.d_impl, self.dt
         pname = cell.pname
         self.ls.step(self.pre, self.post)
+        if self.freeze.active(si):
+            # skipped by the trainer: nothing may reach its accumulators; spikes are still booked
+            # (the monitors keep recording unless the whole layer is in eval mode)
+            self.freeze.check(si, {"trainer": kind, "conn": self.sub["conn"]["kind"], "step": si,
+                                   "cell": cell.name, "freeze": self.freeze.kind})
+            self.n_frozen += 1
+            if self.freeze.kind == "layer_eval":
+                self.ended = True
+            return
         td, valid, band = M.tdelta(self.ls, pairs, dt, d_impl)
         exact_p = np.array([self.dt_dy and M.is_dyadic(d_impl[p]) for p in range(P)])
         amb_e = valid & (np.abs(np.nan_to_num(td)) <= band) & ~exact_p[None, :, None]
@@ -585,7 +673,8 @@ def _run_formula(case, kind):
         signal, gscale = stp.get("signal", 1.0), stp.get("scale", 1.0)
         for fc in cells:
             fc.drive(si)
-        cells[0].cell.train(signal, gscale)      # ONE call serves every registered cell
+        only = _only_arg([fc.cell for fc in cells], [fc.freeze for fc in cells], si)
+        cells[0].cell.train(signal, gscale, only)      # ONE call serves every registered cell
         for fc in cells:
             fc.judge(si, signal, gscale)
 
@@ -622,12 +711,21 @@ def _run_formula(case, kind):
         cls.append("both last spikes older than 88*tau")
     if tot("n_old_live"):
         cls.append("old pair with non-negligible term")
+    for ci, fc in enumerate(cells):
+        if fc.n_frozen:
+            pos = "first" if ci == 0 else ("last" if ci == len(cells) - 1 else "middle")
+            cls.append(f"frozen cell {pos} of {len(cells)}")
+            cls.append(f"freeze={fc.freeze.kind}")
+            if fc.freeze.stop < len(fc.sub["steps"]) and fc.freeze.kind != "layer_eval":
+                cls.append("comparison resumed after freeze")
     if multi and kind in THREE:
         cls.append("multi-cell three-factor" + (" (tensor reward)" if any(
             isinstance(s.get("signal"), list) for s in case["steps"]) else ""))
     if multi:
         # every cell must itself be exercised, else the case is not counted
-        nt = all(fc.n_nz and (fc.n_c or fc.n_a) for fc in cells) and bool(tot("n_c") and tot("n_a") and tot("n_silent"))
+        live = [fc for fc in cells if not fc.n_frozen]
+        nt = (bool(live) and all(fc.n_nz and (fc.n_c or fc.n_a) for fc in live)
+              and bool(tot("n_c") and tot("n_a") and tot("n_silent")))
     else:
         nt = bool(main.n_c and main.n_a and main.n_silent and main.n_nz)
     return {"nt": bool(nt), "cls": cls, "amb": tot("n_amb"), "n_c": tot("n_c"), "n_a": tot("n_a"),
@@ -677,10 +775,17 @@ class _TwinCell:
         self.red = red
         self.n_c = self.n_a = self.n_z = self.n_nz = self.n_silent = self.n_mixed = self.n_setd = 0
         self.n_intol = self.n_old_live = 0
+        T = len(sub["steps"])
+        self.fa, self.fb = _Freeze(self.a, sub.get("freeze"), T), _Freeze(self.b, sub.get("freeze"), T)
+        if self.fa.kind != self.fb.kind:   # cells_arg exists on the three-factor side only
+            self.fb.kind = "cell_eval"
+        self.n_frozen = 0
 
     def drive(self, si):
         stp = self.sub["steps"][si]
         a, b = self.a, self.b
+        self.fa.before_step(si)
+        self.fb.before_step(si)
         if not self.zero:
             r1 = _redelay(a, self.sub, stp, self.dms)
             r2 = _redelay(b, self.sub, stp, self.dms)
@@ -697,6 +802,13 @@ class _TwinCell:
     def judge(self, si):
         a, b, mask, zero = self.a, self.b, self.mask, self.zero
         self.ls.step(self.pre, self.post)
+        if self.fa.active(si):
+            info = {"a": a.kind, "b": b.kind, "conn": self.sub["conn"]["kind"], "step": si, "cell": a.name,
+                    "freeze": self.fa.kind}
+            self.fa.check(si, info)
+            self.fb.check(si, info)
+            self.n_frozen += 1
+            return
         # the reference is used for classification and for the magnitude of the tolerance only
         td, valid, band = M.tdelta(self.ls, self.pairs, self.dt, self.d_a)
         c_, a_, z_ = M.branch_counts(np.where(mask[None, :, None], td, np.nan))
@@ -777,7 +889,7 @@ def _run_twins(case, kind_a: str, kind_b: str, zero: bool) -> dict:
     for si in range(len(subs[0]["steps"])):
         for tc in cells:
             tc.drive(si)
-        cells[0].a.train(signal, gscale)
+        cells[0].a.train(signal, gscale, _only_arg([tc.a for tc in cells], [tc.fa for tc in cells], si))
         cells[0].b.train()
         for tc in cells:
             tc.judge(si)
@@ -801,6 +913,11 @@ def _run_twins(case, kind_a: str, kind_b: str, zero: bool) -> dict:
         cls.append("opposite-sign learning rates")
     if tot("n_setd"):
         cls.append("delay re-assigned mid-history")
+    for ci, tc in enumerate(cells):
+        if tc.n_frozen:
+            pos = "first" if ci == 0 else ("last" if ci == len(cells) - 1 else "middle")
+            cls.append(f"frozen cell {pos} of {len(cells)}")
+            cls.append(f"freeze={tc.fa.kind}")
     if case.get("itol"):
         cls.append("interp_tolerance>0")
     if tot("n_intol"):
@@ -811,7 +928,8 @@ def _run_twins(case, kind_a: str, kind_b: str, zero: bool) -> dict:
         cls.append("old pair with non-negligible term")
     if zero:
         cls.append(f"kstdp:delayed={case.get('delayed', False)},dmax_b={case.get('dmax_steps_b', case['dmax_steps'])}")
-    nt = bool(tot("n_c") and tot("n_a") and tot("n_nz") and tot("n_silent")) and all(tc.n_nz for tc in cells)
+    nt = (bool(tot("n_c") and tot("n_a") and tot("n_nz") and tot("n_silent"))
+          and all(tc.n_nz for tc in cells if not tc.n_frozen) and any(not tc.n_frozen for tc in cells))
     return {"nt": nt, "cls": cls}
 
 
@@ -970,6 +1088,20 @@ def _more_cells(draw, tier, case, zero_delays, T, setd, kstdp=False):
     return more
 
 
+def _add_freezes(draw, case, more, three):
+    """In half of the multi-cell cases: a generated subset of the cells (at least one; any position
+    in the registration order) is frozen for a generated span of steps."""
+    if not more or draw(st.booleans()):
+        return
+    kinds = ["cell_eval", "cell_eval", "no_updater", "layer_eval"] + (["cells_arg"] * 4 if three else [])
+    targets = [case] + more
+    forced = draw(st.integers(0, len(targets) - 1))
+    for i, tgt in enumerate(targets):
+        if i == forced or draw(st.integers(0, 3)) == 0:
+            tgt["freeze"] = {"kind": draw(st.sampled_from(kinds)), "start": draw(st.integers(0, 40)),
+                             "len": draw(st.integers(0, 40))}
+
+
 @st.composite
 def formula_case(draw, tier="quick"):
     kind = draw(st.sampled_from(TRAINERS))
@@ -991,6 +1123,7 @@ def formula_case(draw, tier="quick"):
     more = _more_cells(draw, tier, case, kind == "KSTDP", len(case["steps"]), setd, kstdp=(kind == "KSTDP"))
     if more:
         case["more"] = more
+    _add_freezes(draw, case, more, three)
     return case
 
 
@@ -1012,6 +1145,7 @@ def twin_case(draw, tier="quick"):
     more = _more_cells(draw, tier, case, False, len(case["steps"]), True)
     if more:
         case["more"] = more
+    _add_freezes(draw, case, more, case["pair"] in ("mw", "md"))
     return case
 
 
@@ -1036,6 +1170,7 @@ def zero_case(draw, tier="quick"):
     more = _more_cells(draw, tier, case, True, len(case["steps"]), False)
     if more:
         case["more"] = more
+    _add_freezes(draw, case, more, case["first"] in THREE)
     return case
 
 
@@ -1128,6 +1263,11 @@ ASSUMPTIONS = [
     "rounding only",
     "long-silence stratum (1/8 of the cases): dt = 1, tau in {0.1, 0.25, 0.5}, 1-2 silences of 9-30 "
     "(quick) / 20-200 (thorough) steps; every step of the silence is compared",
+    "in half of the multi-cell cases a subset of the cells is frozen for a span of steps (cell.eval(), "
+    "connection without updater, three-factor cells= argument, or layer.eval() to the end): its "
+    "accumulators must not change, the other cells are judged as before; after cell.eval()/updater/"
+    "cells= freezes the frozen cell's comparison resumes (the layer kept recording), after layer.eval() "
+    "it ends (eval_update=False stops the monitors)",
     "cells that share a trainer share batch size, step time and the reward signal; connection, delays, "
     "weights, history and (half of the time) hyperparameters are their own",
     "pairs with |t_delta| inside a float-rounding band (non-dyadic dt or delay) are not judged "
